@@ -116,6 +116,7 @@ inductive IR where
   | streamMap (x : Name) (a b : IR)               -- binds `x` in child 1
   | streamFilter (x : Name) (a b : IR)
   | streamFold (acc v : Name) (a z b : IR)        -- binds `acc` and `v` in child 2
+  | streamScan (acc v : Name) (a z b : IR)        -- `StreamScan`: the stream of all accumulator values (zero first)
   | snil                                            -- `MakeStruct`
   | scons (f : String) (e rest : IR)
   | getField (o : IR) (f : String)
@@ -275,6 +276,11 @@ def pairOf : Val → Option (Val × Val)
   | .struct [(_, k), (_, v)] => some (k, v)
   | _ => none
 
+/-- `StreamScan`: every intermediate accumulator, the zero first -/
+def scanVals (f : Val → Val → Val) : Val → List Val → List Val
+  | s, [] => [s]
+  | s, w :: r => s :: scanVals f (f s w) r
+
 /-! ## Evaluation
 
 `ρ` is the value (eval) scope.  `A` is the aggregation scope: one environment per element being aggregated over (it is only
@@ -326,6 +332,9 @@ def eval (ρ : Env) (A : List Env) : IR → Val
     | .error o => o
   | .streamFold acc v a z b => match asArr (eval ρ A a) with
     | .ok vs => vs.foldl (fun s w => eval ((v, w) :: (acc, s) :: ρ) A b) (eval ρ A z)
+    | .error o => o
+  | .streamScan acc v a z b => match asArr (eval ρ A a) with
+    | .ok vs => .arr (scanVals (fun s w => eval ((v, w) :: (acc, s) :: ρ) A b) (eval ρ A z) vs)
     | .error o => o
   | .snil => .struct []
   | .scons f e rest => match eval ρ A rest with
@@ -381,7 +390,7 @@ def aggFree : IR → Bool
   | .toSet a | .toDict a => aggFree a
   | .bin _ a b | .cmp _ a b | .let_ _ a b | .acons a b | .arrayRef a b | .streamMap _ a b | .streamFilter _ a b
   | .scons _ a b | .insertField a _ b | .tcons a b | .dictGet a b => aggFree a && aggFree b
-  | .ite a b c | .streamFold _ _ a b c => aggFree a && aggFree b && aggFree c
+  | .ite a b c | .streamFold _ _ a b c | .streamScan _ _ a b c => aggFree a && aggFree b && aggFree c
 
 /-- `free_vars` for nodes outside the aggregation context (on aggregation nodes: the value-scope variables of the value-scope
 children only; every statement that uses `fv` assumes `aggFree`) -/
@@ -396,6 +405,7 @@ def fv : IR → List Name
   | .let_ x v b => fv v ++ remove x (fv b)
   | .streamMap x a b | .streamFilter x a b => fv a ++ remove x (fv b)
   | .streamFold acc v a z b => fv a ++ fv z ++ remove acc (remove v (fv b))
+  | .streamScan acc v a z b => fv a ++ fv z ++ remove acc (remove v (fv b))
   | .streamAgg _ a q => fv a ++ fv q
   | .aggLet _ _ b => fv b
   | .aggFilter _ b => fv b
@@ -432,6 +442,8 @@ inductive WellScoped : List Name → Option (List Name) → IR → Prop
   | streamFilter : WellScoped Γ Δ a → WellScoped (x :: Γ) Δ b → WellScoped Γ Δ (.streamFilter x a b)
   | streamFold : WellScoped Γ Δ a → WellScoped Γ Δ z → WellScoped (v :: acc :: Γ) Δ b →
       WellScoped Γ Δ (.streamFold acc v a z b)
+  | streamScan : WellScoped Γ Δ a → WellScoped Γ Δ z → WellScoped (v :: acc :: Γ) Δ b →
+      WellScoped Γ Δ (.streamScan acc v a z b)
   | snil : WellScoped Γ Δ .snil
   | scons : WellScoped Γ Δ e → WellScoped Γ Δ rest → WellScoped Γ Δ (.scons f e rest)
   | getField : WellScoped Γ Δ o → WellScoped Γ Δ (.getField o f)
@@ -463,6 +475,7 @@ def scopeOk (Γ : List Name) (Δ : Option (List Name)) : IR → Bool
   | .let_ x v b => scopeOk Γ Δ v && scopeOk (x :: Γ) Δ b
   | .streamMap x a b | .streamFilter x a b => scopeOk Γ Δ a && scopeOk (x :: Γ) Δ b
   | .streamFold acc v a z b => scopeOk Γ Δ a && scopeOk Γ Δ z && scopeOk (v :: acc :: Γ) Δ b
+  | .streamScan acc v a z b => scopeOk Γ Δ a && scopeOk Γ Δ z && scopeOk (v :: acc :: Γ) Δ b
   | .streamAgg x a q => scopeOk Γ Δ a && scopeOk Γ (some (x :: Γ)) q
   | .aggLet x v b => match Δ with
     | some D => scopeOk D none v && scopeOk Γ (some (x :: D)) b
@@ -499,6 +512,8 @@ def subst (x : Name) (v : IR) : IR → IR
   | .streamFilter y a b => .streamFilter y (subst x v a) (if y = x then b else subst x v b)
   | .streamFold acc w a z b =>
     .streamFold acc w (subst x v a) (subst x v z) (if acc = x ∨ w = x then b else subst x v b)
+  | .streamScan acc w a z b =>
+    .streamScan acc w (subst x v a) (subst x v z) (if acc = x ∨ w = x then b else subst x v b)
   | .scons f e rest => .scons f (subst x v e) (subst x v rest)
   | .getField o f => .getField (subst x v o) f
   | .insertField old f e => .insertField (subst x v old) f (subst x v e)
@@ -524,6 +539,9 @@ def substOk (x : Name) (F : List Name) : IR → Bool
   | .let_ y e b | .streamMap y e b | .streamFilter y e b =>
     substOk x F e && aggFree b && (decide (y = x) || decide (x ∉ fv b) || (decide (y ∉ F) && substOk x F b))
   | .streamFold acc w a z b =>
+    substOk x F a && substOk x F z && aggFree b &&
+      (decide (acc = x ∨ w = x) || decide (x ∉ fv b) || (decide (acc ∉ F) && decide (w ∉ F) && substOk x F b))
+  | .streamScan acc w a z b =>
     substOk x F a && substOk x F z && aggFree b &&
       (decide (acc = x ∨ w = x) || decide (x ∉ fv b) || (decide (acc ∉ F) && decide (w ∉ F) && substOk x F b))
   | .streamAgg .. | .aggLet .. | .aggFilter .. | .agg .. => false
@@ -554,6 +572,7 @@ def inlineCse : IR → IR
   | .streamMap y a b => .streamMap y (inlineCse a) (inlineCse b)
   | .streamFilter y a b => .streamFilter y (inlineCse a) (inlineCse b)
   | .streamFold acc w a z b => .streamFold acc w (inlineCse a) (inlineCse z) (inlineCse b)
+  | .streamScan acc w a z b => .streamScan acc w (inlineCse a) (inlineCse z) (inlineCse b)
   | .scons f e rest => .scons f (inlineCse e) (inlineCse rest)
   | .getField o f => .getField (inlineCse o) f
   | .insertField old f e => .insertField (inlineCse old) f (inlineCse e)
@@ -577,7 +596,7 @@ def cseLetFree : IR → Bool
   | .bin _ a b | .cmp _ a b | .acons a b | .arrayRef a b | .scons _ a b | .insertField a _ b | .tcons a b | .dictGet a b
   | .streamMap _ a b | .streamFilter _ a b | .streamAgg _ a b | .aggFilter a b => cseLetFree a && cseLetFree b
   | .aggLet x a b => !isCse x && cseLetFree a && cseLetFree b
-  | .ite a b c | .streamFold _ _ a b c => cseLetFree a && cseLetFree b && cseLetFree c
+  | .ite a b c | .streamFold _ _ a b c | .streamScan _ _ a b c => cseLetFree a && cseLetFree b && cseLetFree c
 
 def inlineOk : IR → Bool
   | .let_ x v b =>
@@ -588,7 +607,7 @@ def inlineOk : IR → Bool
   | .toSet a | .toDict a => inlineOk a
   | .bin _ a b | .cmp _ a b | .acons a b | .arrayRef a b | .scons _ a b | .insertField a _ b | .tcons a b | .dictGet a b
   | .streamMap _ a b | .streamFilter _ a b => inlineOk a && inlineOk b
-  | .ite a b c | .streamFold _ _ a b c => inlineOk a && inlineOk b && inlineOk c
+  | .ite a b c | .streamFold _ _ a b c | .streamScan _ _ a b c => inlineOk a && inlineOk b && inlineOk c
   | .streamAgg _ a q => inlineOk a && cseLetFree q
   | .aggLet _ v b => cseLetFree v && cseLetFree b
   | .aggFilter c b => cseLetFree c && cseLetFree b
@@ -609,7 +628,7 @@ def countRef (x : Name) : IR → Nat
   | .bin _ a b | .cmp _ a b | .acons a b | .arrayRef a b | .scons _ a b | .insertField a _ b | .tcons a b | .dictGet a b
   | .let_ _ a b | .streamMap _ a b | .streamFilter _ a b | .streamAgg _ a b | .aggLet _ a b | .aggFilter a b =>
     countRef x a + countRef x b
-  | .ite a b c | .streamFold _ _ a b c => countRef x a + countRef x b + countRef x c
+  | .ite a b c | .streamFold _ _ a b c | .streamScan _ _ a b c => countRef x a + countRef x b + countRef x c
 
 /-- the `__cse` binders of a program, in prefix order, each with the number of references to it in the scope of the binding -/
 def cseBinders : IR → List (Name × Nat)
@@ -619,7 +638,7 @@ def cseBinders : IR → List (Name × Nat)
   | .toSet a | .toDict a | .agg _ a => cseBinders a
   | .bin _ a b | .cmp _ a b | .acons a b | .arrayRef a b | .scons _ a b | .insertField a _ b | .tcons a b | .dictGet a b
   | .streamMap _ a b | .streamFilter _ a b | .streamAgg _ a b | .aggFilter a b => cseBinders a ++ cseBinders b
-  | .ite a b c | .streamFold _ _ a b c => cseBinders a ++ cseBinders b ++ cseBinders c
+  | .ite a b c | .streamFold _ _ a b c | .streamScan _ _ a b c => cseBinders a ++ cseBinders b ++ cseBinders c
 
 /-- is `x` referenced from inside a branch of an `If` of `t`? -/
 def refUnderIf (x : Name) : IR → Bool
@@ -630,7 +649,7 @@ def refUnderIf (x : Name) : IR → Bool
   | .bin _ a b | .cmp _ a b | .acons a b | .arrayRef a b | .scons _ a b | .insertField a _ b | .tcons a b | .dictGet a b
   | .let_ _ a b | .streamMap _ a b | .streamFilter _ a b | .streamAgg _ a b | .aggLet _ a b | .aggFilter a b =>
     refUnderIf x a || refUnderIf x b
-  | .streamFold _ _ a b c => refUnderIf x a || refUnderIf x b || refUnderIf x c
+  | .streamFold _ _ a b c | .streamScan _ _ a b c => refUnderIf x a || refUnderIf x b || refUnderIf x c
 
 /-- `If.renderable_new_block`: the branches of a conditional are blocks — no lifted binding is referenced from inside a
 branch that does not contain the binding (the engine evaluates a `Let` value eagerly and a branch only when it is taken) -/
@@ -641,7 +660,7 @@ def branchLocal : IR → Bool
   | .toSet a | .toDict a | .agg _ a => branchLocal a
   | .bin _ a b | .cmp _ a b | .acons a b | .arrayRef a b | .scons _ a b | .insertField a _ b | .tcons a b | .dictGet a b
   | .streamMap _ a b | .streamFilter _ a b | .streamAgg _ a b | .aggFilter a b => branchLocal a && branchLocal b
-  | .ite a b c | .streamFold _ _ a b c => branchLocal a && branchLocal b && branchLocal c
+  | .ite a b c | .streamFold _ _ a b c | .streamScan _ _ a b c => branchLocal a && branchLocal b && branchLocal c
 
 /-! ## One step of common-subexpression elimination at the specification level
 
@@ -660,6 +679,7 @@ def names : IR → List Name
   | .ite a b c => names a ++ names b ++ names c
   | .let_ x a b | .streamMap x a b | .streamFilter x a b | .streamAgg x a b | .aggLet x a b => x :: (names a ++ names b)
   | .streamFold acc w a z b => acc :: w :: (names a ++ names z ++ names b)
+  | .streamScan acc w a z b => acc :: w :: (names a ++ names z ++ names b)
 
 def abstractAt (x : Name) (v : IR) (F : List Name) : IR → IR
   | .i32 n => if IR.i32 n = v then .ref x else .i32 n
@@ -701,6 +721,8 @@ def abstractAt (x : Name) (v : IR) (F : List Name) : IR → IR
     else .streamFilter y (abstractAt x v F a) (if y ∈ F then b else abstractAt x v F b)
   | .streamFold acc w a z b => if IR.streamFold acc w a z b = v then .ref x
     else .streamFold acc w (abstractAt x v F a) (abstractAt x v F z) (if acc ∈ F ∨ w ∈ F then b else abstractAt x v F b)
+  | .streamScan acc w a z b => if IR.streamScan acc w a z b = v then .ref x
+    else .streamScan acc w (abstractAt x v F a) (abstractAt x v F z) (if acc ∈ F ∨ w ∈ F then b else abstractAt x v F b)
   | .streamAgg y a q => .streamAgg y a q
   | .aggLet y a b => .aggLet y a b
   | .aggFilter a b => .aggFilter a b
